@@ -95,7 +95,7 @@ theorem certRequest_spec {y : Pair} (hinv : PairInv y) {r : Rcn} {rc : Rc} {ki :
     refine ⟨⟨rfl, rfl, ⟨hinv.rp, d1, d3.trans hinv.repo, d2⟩, ParentSame.refl _ _, d5, BookRel.refl _ _⟩,
       fun _ => d6, fun R hR => (nomatch hR)⟩
   | some R =>
-    obtain ⟨evs, p', hex, hr', hsame, hiss, hbook⟩ := certify_stored hinv.rp ki na ha
+    obtain ⟨evs, p', hex, hr', hsame, hiss, hbook, _⟩ := certify_stored hinv.rp ki na ha
     have hy : y.certRequest r rc.parentRcn ki na =
         { y with parent := p', child := y.child.next (.updateRcvdCert r ki (answerCert R na) na []) } := by
       unfold Pair.certRequest; rw [hex]; simp only [hiss]; rfl
